@@ -364,6 +364,49 @@ def validate_flow(chk, facts):
         chk.ob(rule, "mode-table", bool(m) and all(k == v for k, v in m.items()), "api ValidationMode (the type the JSON interface deserialises) -> core ValidationMode maps %s" % m, where=conv.where(), fn=conv.name, sample={"table": m})
 
 
+def wrappers_and_format(chk, facts):
+    """The JSON / JSON-string variants of every FFI entry are thin wrappers of the typed entry (same answer), and ffi::format
+    passes the call's own line width / indent width / text to the formatter."""
+    rule = "C19.FLOW.wrappers"
+    n = 0
+    names = [nme for nme in facts.unit_fns("cedar_policy.lib") if nme.startswith("cedar_policy::ffi::") and "closure" not in nme and "::test" not in nme]
+    byname = set(names)
+    for nme in sorted(names):
+        base = None
+        if nme.endswith("_json_str"):
+            base = nme[:-len("_json_str")]
+        elif nme.endswith("_json"):
+            base = nme[:-len("_json")]
+        if base is None or base not in byname:
+            continue
+        f = facts.fns[nme]
+        if not f.r.get("pub"):
+            continue
+        cs = [callee(t) for _, t in f.calls()]
+        ok = base in cs
+        n += 1
+        chk.ob(rule, short(nme).split("ffi::")[-1], ok, "%s answers by calling %s: %s" % (short(nme), short(base).split("::")[-1], ok), where=f.where(), fn=nme, key="%s:%s" % (rule, nme))
+    chk.floor(rule, "JSON wrappers", n, 12)
+    f = facts.fn("cedar_policy::ffi::format::format")
+    if f is None:
+        chk.lost(rule, "ffi::format::format")
+        return
+
+    def seed(p):
+        return ["CALL:" + e[2] for e in p[1:] if isinstance(e, list) and e[0] == "f" and str(e[3]).endswith("FormattingCall") and e[2]]
+    L = shape.Labels(f, None, seed)
+    okc = False
+    for b, s_ in f.stmts():
+        if s_[0] == "a" and s_[2][0] == "agg" and s_[2][1][0] == "adt" and (s_[2][1][1].endswith("::Config") and "formatter" in s_[2][1][1]):
+            got = {nm: {x[5:] for x in L.operand_labels(o) if x.startswith("CALL:")} for nm, o in zip(s_[2][1][3], s_[2][2])}
+            okc = got.get("line_width") == {"line_width"} and got.get("indent_width") == {"indent_width"}
+    txt = False
+    for b, t in f.calls():
+        if callee(t).endswith("policies_str_to_pretty"):
+            txt = "CALL:policy_text" in L.operand_labels(t[2][0])
+    chk.ob(rule, "format", okc and txt, "ffi::format formats the call's own policy_text (%s) with the call's own line_width / indent_width (%s)" % (txt, okc), where=f.where(), fn=f.name)
+
+
 def run(chk, facts, tier):
     facts.load_crate("cedar_policy_core.lib")
     facts.load_crate("cedar_policy.lib")
@@ -381,3 +424,4 @@ def run(chk, facts, tier):
     response_hom(chk, facts)
     cli_table(chk, facts)
     validate_flow(chk, facts)
+    wrappers_and_format(chk, facts)
